@@ -140,10 +140,10 @@ Proof. exact recompress_partial. Qed.
 Print Assumptions C08_recompress_partial.
 
 (* ------------------------------------------------------------------ non-vacuity *)
-Definition ex_l1 := mkLeaf 1 (Some 1) TyFloat true false "1 " "1 ".
-Definition ex_l2 := mkLeaf 2 (Some 1) TyFloat false false "1" "1 ".
-Definition ex_l3 := mkLeaf 3 (Some 5) TyFloat false false "5" "5 ".
-Definition ex_l4 := mkLeaf 4 None TyFloat false false "" "".
+Definition ex_l1 := mkLeaf 1 (Some 1) TyFloat true false "1 " "1 " None.
+Definition ex_l2 := mkLeaf 2 (Some 1) TyFloat false false "1" "1 " None.
+Definition ex_l3 := mkLeaf 3 (Some 5) TyFloat false false "5" "5 " None.
+Definition ex_l4 := mkLeaf 4 None TyFloat false false "" "" None.
 Definition ex_r := mkSc 1 KR [ex_l1; ex_l2; ex_l3] false 2 "2r" (Some "2") (Some 2%Z) "" " " 0 0 0 false "" "" "" true true.
 
 (* '1 2r' whose third value became 5 and that got a jump appended: the hypotheses of C08_recompress_partial hold *)
